@@ -4,5 +4,5 @@
 ID=$1; FROM=$2; TO=$3; TIER=${4:-quick}
 mkdir -p /verif/.build/triage/$ID
 for s in $(seq $FROM $TO); do
-  VERIF_VIOL_DIR=/verif/.build/triage/$ID VERIF_CONTINUE=1 VERIF_SEED=$s VERIF_EVIDENCE_DIR=/verif/.build/triage/ev /verif/.build/vh-triage $ID $TIER > /verif/.build/triage/$ID/run-$s.log 2>&1
+  RAYON_NUM_THREADS=3 nice -n 19 env VERIF_VIOL_DIR=/verif/.build/triage/$ID VERIF_CONTINUE=1 VERIF_SEED=$s VERIF_EVIDENCE_DIR=/verif/.build/triage/ev /verif/.build/vh-triage $ID $TIER > /verif/.build/triage/$ID/run-$s.log 2>&1
 done
